@@ -13,7 +13,8 @@ Not modelled (parameters): the zone database (`chrono_tz`): whether a zone name 
 the UTC offset of a named/local zone at a given local time are supplied by the caller
 (`zoneKnown`, `Zone` resolution through `oracle`).  `chrono`'s calendar inside its year range
 is taken to be the proleptic Gregorian calendar of `Dmn.Cal` (checked by the correspondence).
-Fractional seconds are converted exactly (integer arithmetic); the code goes through `f64`.
+Fractional seconds are converted exactly, digit by digit (`fraction_to_nanoseconds`, `mod.rs:638-647`,
+since the repair of F23-f64).
 -/
 
 namespace Dmn.Temporal
@@ -192,8 +193,13 @@ def weekdayOf (dt : DateTime) (oracle : Option Int) : Res Int :=
   | .none => .none
   | .panic => .panic
 
-/-- `FeelDate::weekday` (`date.rs:218`): of the date at UTC midnight. -/
-def Date.weekday (d : Date) : Res Int := weekdayOf (midnightUtc d) none
+/-- `FeelDate::weekday` (`date.rs:223-237`): of the date at UTC midnight through chrono; outside
+chrono's year range from the day number (`days_from_civil`, the same arithmetic as
+`Cal.daysFromCivil`; since the repair of F8-weekday). -/
+def Date.weekday (d : Date) : Res Int :=
+  match weekdayOf (midnightUtc d) none with
+  | .val w => .val w
+  | _ => .val (Cal.weekday (daysFromCivil d.y d.m d.d))
 
 /-- `feel_time_offset` (`mod.rs:567-580`): a local time has no offset in the FEEL domain. -/
 def timeOffsetOf (dt : DateTime) (oracle : Option Int) : Option Int :=
@@ -230,7 +236,7 @@ def isValidDate (y : Int) (m d : Nat) : Bool :=
   | _ =>
     if -999999999 ≤ y ∧ y ≤ 999999999 then
       match lastDayOfMonth y m with
-      | some l => decide (d ≤ l)
+      | some l => decide (1 ≤ d) && decide (d ≤ l)
       | none => false
     else false
 
@@ -317,20 +323,33 @@ def Dec.toU32 (x : Dec) : Nat :=
 /-- `dec_to_u32(..) as u8` (`number.rs:391`). -/
 def Dec.toU8 (x : Dec) : Nat := x.toU32 % 256
 
-/-- `TryFrom<(FeelNumber, FeelNumber, FeelNumber)> for FeelDate` (`date.rs:87-101`). -/
+/-- `number.trunc() == number`: the decimal is an integer. -/
+def Dec.isInt (x : Dec) : Bool :=
+  if x.exp ≥ 0 then true else x.coeff % ((10 : Int) ^ (-x.exp).toNat) == 0
+
+/-- The integer value of an integral decimal. -/
+def Dec.intVal (x : Dec) : Int :=
+  if x.exp ≥ 0 then x.coeff * (10 : Int) ^ x.exp.toNat else x.coeff / ((10 : Int) ^ (-x.exp).toNat)
+
+/-- `TryFrom<(FeelNumber, FeelNumber, FeelNumber)> for FeelDate` (`date.rs:88-105`, since the
+repair of F13-round, F13-narrow and F13-year): the components must be integers, the year in
+−999999999…999999999, the month in 1…12, the day in 1…31; only then are they narrowed (exactly)
+and checked by `is_valid_date`. -/
 def dateFromNumbers (yr mo dy : Dec) : Option Date :=
-  let year := yr.toI32
-  if mo.coeff > 0 ∧ dy.coeff > 0 then
-    let month := mo.toU8
-    let day := dy.toU8
-    if isValidDate year month day then some ⟨year, month, day⟩ else none
+  if yr.isInt && mo.isInt && dy.isInt then
+    let y := yr.intVal
+    let m := mo.intVal
+    let d := dy.intVal
+    if (-999999999 ≤ y ∧ y ≤ 999999999) ∧ (1 ≤ m ∧ m ≤ 12) ∧ (1 ≤ d ∧ d ≤ 31) then
+      if isValidDate y m.toNat d.toNat then some ⟨y, m.toNat, d.toNat⟩ else none
+    else none
   else none
 
 /-! ## Durations (`date.rs:189-205`, `dt_duration.rs`, `ym_duration.rs`) -/
 
 /-- `FeelDate::ym_duration` (`date.rs:189-205`): `self` is the *to* date, `other` the *from*. -/
 def Date.ymDuration (self other : Date) : Int :=
-  if self.y < other.y then
+  if self.compare other = .lt then
     let months := 12 * (other.y - self.y) + ((other.m : Int) - (self.m : Int))
     let months := if self.d > other.d then months - 1 else months
     months * (-1)
@@ -351,18 +370,19 @@ def dtdSeconds (n : Int) : Int :=
 def ymdYears (n : Int) : Int := Int.tdiv n 12
 def ymdMonths (n : Int) : Int := Int.tmod n 12
 
-/-! ## FEEL operators on durations and dates (`builders.rs:130-161` `+`, `:1217-1228` unary `-`,
-`:1572-1597` binary `-`): only the listed arms exist, everything else is `null`. `i128`/`i64`
+/-! ## FEEL operators on durations and dates (`build_add` `builders.rs:130-168`, `build_neg`
+`:1288-1300`, `build_sub` `:1644-1680`; the arms for years-and-months durations and for the
+difference of two days-and-time durations exist since the repair of F21-*). `i128`/`i64`
 wrap-around of sums is out of reach of values that literals can denote and is not modelled. -/
 
 def feelAddDtd (a b : Int) : Option Int := some (a + b)
 def feelNegDtd (a : Int) : Option Int := some (-a)
-/-- `build_add` has no arm for two years-and-months durations. -/
-def feelAddYmd (_a _b : Int) : Option Int := none
-/-- `build_neg` has no arm for a years-and-months duration. -/
-def feelNegYmd (_a : Int) : Option Int := none
-/-- `build_sub` has arms for numbers and date-times only. -/
-def feelSubDtd (_a _b : Int) : Option Int := none
+def feelSubDtd (a b : Int) : Option Int := some (a - b)
+/-- `FeelYearsAndMonthsDuration::new_m(lh.as_months() + rh.as_months())` etc. -/
+def feelAddYmd (a b : Int) : Option Int := some (a + b)
+def feelNegYmd (a : Int) : Option Int := some (-a)
+def feelSubYmd (a b : Int) : Option Int := some (a - b)
+/-- `build_sub` has no arm for two dates. -/
 def feelSubDate (_a _b : Date) : Option Int := none
 
 /-! ## Characters and numerals -/
@@ -406,13 +426,14 @@ def twoDigits : List Char → Option (Nat × List Char)
 `zone.rs:80-121`) -/
 
 /-- `DATE_PATTERN` as a prefix recogniser with the field extraction of `TryFrom<&str>`:
-`(-)?[1-9][0-9]{3,8}-[0-9]{2}-[0-9]{2}`. The year run is maximal because `-` must follow. -/
+`(-)?([0-9]{4}|[1-9][0-9]{4,8})-[0-9]{2}-[0-9]{2}` (four digits may start with zeros since the
+repair of F13-lit-year). The year run is maximal because `-` must follow. -/
 def dateP (cs : List Char) : Option ((Int × Nat × Nat) × List Char) :=
   let (neg, cs) := match cs with
     | '-' :: r => (true, r)
     | _ => (false, cs)
   let (ys, r) := spanDigits cs
-  if 4 ≤ ys.length ∧ ys.length ≤ 9 ∧ ys.head? ≠ some '0' then
+  if 4 ≤ ys.length ∧ ys.length ≤ 9 ∧ (ys.length = 4 ∨ ys.head? ≠ some '0') then
     match r with
     | '-' :: r =>
       match twoDigits r with
@@ -433,18 +454,20 @@ def parseDate (cs : List Char) : Option Date :=
   | _ => none
 
 /-- Exact fraction: the first nine digits after the point, right-padded with zeros
-(`(fractional * 1e9).trunc()` in the code, through `f64`; `mod.rs:247-252`). -/
+(`fraction_to_nanoseconds`, `mod.rs:638-647`). -/
 def fracNanos (ds : List Char) : Nat := natOfDigits ((ds ++ List.replicate 9 '0').take 9)
 
+/-- `[a-zA-Z0-9_/+-]` (`ZONE_PATTERN`, `mod.rs:62`; digits, `+` and `-` since the repair of
+F26-zonechars). -/
 def isZoneChar (c : Char) : Bool :=
   (decide (97 ≤ c.toNat) && decide (c.toNat ≤ 122)) || (decide (65 ≤ c.toNat) && decide (c.toNat ≤ 90)) ||
-    c == '_' || c == '/'
+    (decide (48 ≤ c.toNat) && decide (c.toNat ≤ 57)) || c == '_' || c == '/' || c == '+' || c == '-'
 
 /-- `FeelZone::new` (`zone.rs:70-77`). -/
 def Zone.new (offset : Int) : Zone := if offset ≠ 0 then .offset offset else .utc
 
 /-- The optional zone suffix up to the end of the text and `FeelZone::from_captures`
-(`zone.rs:80-121`). `zoneKnown` stands for `name.parse::<chrono_tz::Tz>().is_ok()`.
+(`zone.rs:81-126`; hours at most 14, minutes and seconds at most 59). `zoneKnown` stands for `name.parse::<chrono_tz::Tz>().is_ok()`.
 Outer `none`: the text does not match the pattern; inner `none`: `from_captures` is `None`. -/
 def zoneP (zoneKnown : List Char → Bool) (cs : List Char) : Option (Option Zone) :=
   match cs with
@@ -464,7 +487,7 @@ def zoneP (zoneKnown : List Char → Bool) (cs : List Char) : Option (Option Zon
           let fin (secs : Nat) : Option Zone :=
             let off : Int := 3600 * hh + 60 * mm + secs
             let off := if sign = '-' then -off else off
-            if hh > 14 then none else some (Zone.new off)
+            if secs > 59 ∨ hh > 14 ∨ mm > 59 then none else some (Zone.new off)
           match r with
           | [] => some (fin 0)
           | ':' :: r =>
@@ -548,24 +571,24 @@ def Dec.secondsAndNanos (x : Dec) : Nat × Nat :=
     let a := x.coeff.toNat
     (a / p, (a % p) * 1000000000 / p)
 
-/-- `x as i32` of an `isize`. -/
-def wrapI32 (n : Int) : Int := (n + 2147483648) % 4294967296 - 2147483648
-
-/-- `time_3` / `time_4` (`core.rs:1185-1245`): hour and minute go through `to_u8` (round
-half-even, then `as u8`), the seconds are split exactly; `offset = none` is the three-argument
-form (or a `null` fourth argument), `some n` a days-and-time duration of `n` nanoseconds:
-`duration.as_seconds() as i32`. -/
+/-- `time_3` / `time_4` (`core.rs:1185-1245`): hour and minute must be integers (since the repair
+of F27-time-round; they then go through `to_u8` exactly), the seconds are split exactly;
+`offset = none` is the three-argument form (or a `null` fourth argument), `some n` a
+days-and-time duration of `n` nanoseconds whose whole seconds (`as_seconds()`) must lie within
+±14:59:59 (since the repair of F27-time-offset). -/
 def timeFromNumbers (h mi s : Dec) (offset : Option Int) : Option Time :=
-  if h.inRange 24 && mi.inRange 60 && s.inRange 60 then
+  if h.inRange 24 && mi.inRange 60 && s.inRange 60 && h.isInt && mi.isInt then
     let (sec, ns) := s.secondsAndNanos
     let hour := h.toU8
     let minute := mi.toU8
     let second := sec % 256
-    if isValidTime hour minute second then
-      match offset with
-      | none => some ⟨hour, minute, second, ns, .localZ⟩
-      | some n => some ⟨hour, minute, second, ns, Zone.new (wrapI32 (Int.tdiv n 1000000000))⟩
-    else none
+    match offset with
+    | none => if isValidTime hour minute second then some ⟨hour, minute, second, ns, .localZ⟩ else none
+    | some n =>
+      let secs := Int.tdiv n 1000000000
+      if -53999 ≤ secs ∧ secs ≤ 53999 then
+        if isValidTime hour minute second then some ⟨hour, minute, second, ns, Zone.new secs⟩ else none
+      else none
   else none
 
 /-! ## Duration literals (`dt_duration.rs:131-230`, `ym_duration.rs:83-126`) -/
@@ -603,9 +626,15 @@ def asI64 (n : Nat) : Int := if (n : Int) ≤ i64Max then n else (n : Int) - 184
 
 def inI64 (n : Int) : Bool := decide (i64Min ≤ n) && decide (n ≤ i64Max)
 
-/-- `FeelYearsAndMonthsDuration::try_from(&str)` (`ym_duration.rs:98-126`):
-`^(-)?P([0-9]+Y)?([0-9]+M)?$`; a component whose digits do not fit `u64` is skipped silently;
-`(years as i64) * 12`, the addition and the negation are overflow-checked. -/
+/-- `str::parse::<i64>()` of a digit run. -/
+def parseI64 (ds : List Char) : Option Int :=
+  let n := natOfDigits ds
+  if (n : Int) ≤ i64Max then some (n : Int) else none
+
+/-- `FeelYearsAndMonthsDuration::try_from(&str)` (`ym_duration.rs:98-136`):
+`^(-)?P([0-9]+Y)?([0-9]+M)?$`; the components are parsed as `i64` and combined with
+`checked_mul` / `checked_add`: anything beyond `i64::MAX` months is an error (since the repair
+of F25-dur-wrap / F5-dur; no panic is left, `Lit.panic` is not produced any more). -/
 def parseYmDur (cs : List Char) : Lit Int :=
   let (neg, cs) := match cs with
     | '-' :: r => (true, r)
@@ -616,30 +645,34 @@ def parseYmDur (cs : List Char) : Lit Int :=
     let (ms, r) := optCompP 'M' r
     if r ≠ [] then .reject
     else
-      let yv := ys.bind parseU64
-      let mv := ms.bind parseU64
-      let afterYears : Option Int :=   -- `none` = overflow
-        match yv with
-        | some y => if inI64 (asI64 y * 12) then some (asI64 y * 12) else none
+      let afterYears : Option Int :=   -- `none` = the literal is an error
+        match ys with
+        | some d => (parseI64 d).bind (fun y => if y * 12 ≤ i64Max then some (y * 12) else none)
         | none => some 0
       match afterYears with
-      | none => .panic
+      | none => .reject
       | some t =>
         let afterMonths : Option Int :=
-          match mv with
-          | some m => if inI64 (t + asI64 m) then some (t + asI64 m) else none
+          match ms with
+          | some d => (parseI64 d).bind (fun m => if t + m ≤ i64Max then some (t + m) else none)
           | none => some t
         match afterMonths with
-        | none => .panic
+        | none => .reject
         | some t =>
-          if neg ∧ t = i64Min then .panic
-          else
-            let t := if neg then -t else t
-            if yv.isSome ∨ mv.isSome then .ok t else .reject
+          let t := if neg then -t else t
+          if ys.isSome ∨ ms.isSome then .ok t else .reject
   | _ => .reject
 
+/-- A captured component whose digits do not fit `u64`: the literal is an error
+(`dt_duration.rs:193-224`, since the repair of F25-dur-skip). -/
+def compBad (s : Option (List Char)) : Bool :=
+  match s with
+  | some d => (parseU64 d).isNone
+  | none => false
+
 /-- `FeelDaysAndTimeDuration::try_from(&str)` (`dt_duration.rs:182-230`):
-`^(-)?P([0-9]+D)?(T([0-9]+H)?([0-9]+M)?([0-9]+(\.[0-9]*)?S)?)?$`. `i128` cannot overflow here. -/
+`^(-)?P([0-9]+D)?(T([0-9]+H)?([0-9]+M)?([0-9]+(\.[0-9]*)?S)?)?$`; a text ending in `T` and a
+component beyond `u64` are errors. `i128` cannot overflow here. -/
 def parseDtDur (cs : List Char) : Lit Int :=
   let (neg, cs) := match cs with
     | '-' :: r => (true, r)
@@ -651,6 +684,8 @@ def parseDtDur (cs : List Char) : Lit Int :=
       match r with
       | [] => some (none, none, none, none)
       | 'T' :: r =>
+        if r = [] then none   -- `value.ends_with('T')`
+        else
         let (hs, r) := optCompP 'H' r
         let (ms, r) := optCompP 'M' r
         -- seconds with optional fraction
@@ -671,21 +706,23 @@ def parseDtDur (cs : List Char) : Lit Int :=
       let hv := hs.bind parseU64
       let mv := ms.bind parseU64
       let sv := ss.bind parseU64
-      -- `".".parse::<f64>()` fails: an empty fraction contributes nothing and validates nothing
+      -- an empty fraction (`.` alone) contributes nothing and validates nothing
       let fv : Option Nat := match fs with
         | some f => if f = [] then none else some (fracNanos f)
         | none => none
       let n : Int := (dv.getD 0 : Nat) * nsPerDay + (hv.getD 0 : Nat) * nsPerHour +
         (mv.getD 0 : Nat) * nsPerMinute + (sv.getD 0 : Nat) * nsPerSecond + (fv.getD 0 : Nat)
       let n := if neg then -n else n
-      if dv.isSome ∨ hv.isSome ∨ mv.isSome ∨ sv.isSome ∨ fv.isSome then .ok n else .reject
+      if compBad ds || compBad hs || compBad ms || compBad ss then .reject
+      else if dv.isSome ∨ hv.isSome ∨ mv.isSome ∨ sv.isSome ∨ fv.isSome then .ok n else .reject
   | _ => .reject
 
 /-! ## Printers (`Display`) -/
 
-/-- `{:04}` of an `i32` (the sign counts towards the width). -/
+/-- The sign, then `{:04}` of the absolute value of the year (`date.rs:53-58`, since the repair of
+F13-print-year). -/
 def printYear (y : Int) : List Char :=
-  if y < 0 then '-' :: padLeft 3 (natToDigits y.natAbs) else padLeft 4 (natToDigits y.natAbs)
+  if y < 0 then '-' :: padLeft 4 (natToDigits y.natAbs) else padLeft 4 (natToDigits y.natAbs)
 
 /-- `Display for FeelDate` (`date.rs:53-57`). -/
 def printDate (d : Date) : List Char :=
@@ -698,16 +735,16 @@ def dropTrailingZeros (cs : List Char) : List Char :=
 def nanosToString (ns : Nat) : List Char :=
   dropTrailingZeros (padLeft 9 (natToDigits (ns % 1000000000)))
 
-/-- `Display for FeelZone` (`zone.rs:49-68`): hours by truncating division keep the sign,
-minutes and seconds are taken from the absolute value. -/
+/-- `Display for FeelZone` (`zone.rs:49-69`): the sign of the offset, then hours, minutes and
+seconds of its absolute value. -/
 def printZone : Zone → List Char
   | .utc => ['Z']
   | .localZ => []
   | .offset o =>
-    let hours := Int.tdiv o 3600
+    let hours := o.natAbs / 3600
     let minutes := (o.natAbs % 3600) / 60
     let seconds := (o.natAbs % 3600) % 60
-    let hh := (if hours < 0 then '-' else '+') :: pad2 hours.natAbs
+    let hh := (if o < 0 then '-' else '+') :: pad2 hours
     if seconds > 0 then hh ++ ':' :: pad2 minutes ++ ':' :: pad2 seconds
     else hh ++ ':' :: pad2 minutes
   | .zone name => '@' :: name
